@@ -344,6 +344,50 @@ def gen_conc(r, host, nodes_per_msg):
     return pre, thr, suf
 
 
+def gen_conc_cluster(r, host):
+    good = ['%s:%d' % (host, 7001 + i) for i in range(3)]
+    e_pre = r.randint(0, 8)
+    pre = [C(e_pre, 'NOFLAG', 1, good[0], [good[0]])] if e_pre else []
+    thr = []
+    for t in range(4):
+        f = 'FORCE' if r.random() < 0.2 else 'NOFLAG'
+        locs = [good[t % 3]] + ([r.choice(bad_addrs(host))] if r.random() < 0.08 else [])
+        thr.append(C(r.randint(max(0, e_pre - 1), e_pre + 3), f, 2 + t, good[t % 3], locs))
+    # a message refused for its host: delivers nothing, lets the harness observe epoch / cluster / routing
+    suf = [C(99, 'FORCE', 9, good[0], ['127.0.0.3:7000'])]
+    return pre, thr, suf
+
+
+def monitor_conc_cluster(host, pre, thr, suf, out):
+    """set_meta holds a mutex over compare+install: the observed replies and final state must be those of delivering the
+    four messages one at a time in SOME order."""
+    import itertools
+    toks = out.split()
+    if len(toks) != 3 + len(suf) or toks[0] != 'conc':
+        return 'malformed output %r' % out[:200]
+    replies = toks[1].split(',')
+    final = Obs(toks[3])
+    if not final.ok or final.reply != 'notmine':
+        return 'malformed observation %r' % toks[3]
+    st0 = (0, '-', '-')
+    for m in pre:
+        if spec_msg_host_ok(host, m) and (spec_force(m.flags) or m.epoch > st0[0]):
+            st0 = (m.epoch, str(m.content), hx(m.route))
+    for perm in itertools.permutations(range(len(thr))):
+        st = st0
+        reps = [None] * len(thr)
+        for i in perm:
+            m = thr[i]
+            if not spec_msg_host_ok(host, m): reps[i] = 'notmine'
+            elif spec_force(m.flags) or m.epoch > st[0]:
+                reps[i] = 'ok'; st = (m.epoch, str(m.content), hx(m.route))
+            else: reps[i] = 'old'
+        if reps == replies and (str(st[0]), st[1], st[2]) == (final.epoch, final.content, final.route):
+            return None
+    return 'replies %s with final (epoch %s, cluster %s, route %s) are not those of any one-at-a-time order of the four SETCLUSTER' % (
+        toks[1], final.epoch, final.content, final.route)
+
+
 def run(chk):
     ok = vlib.standard_proof_phase(chk, TRUSTED, 'epoch')
     chk.cov['rule'] = ('case = one proxy + a SETCLUSTER/SETREPL sequence (equal/lower/higher epochs, flag variants, wrong hosts, '
@@ -402,6 +446,22 @@ def run(chk):
             chk.violation({'kind': 'monitor-concurrent', 'case': c, 'impl': o, 'what': bad})
         elif o.startswith('conc '):
             acc_cases.append((c, o, conc_line(h, pre, thr, suf, 'concobs') + ' OBS ' + o[len('conc '):]))
+    # ---- concurrent SETCLUSTER batches: linearizable in some order (monitor only) ----
+    ncc = 80 if quick else 1500
+    ccl = [(H_DEFAULT,) + gen_conc_cluster(r, H_DEFAULT) for _ in range(ncc)]
+    cclines = [conc_line(h, pre, thr, suf) for h, pre, thr, suf in ccl]
+    _, ccout = chk.run_impl('epoch', cclines, jobs=4)
+    chist['cluster_batches'] = ncc
+    chist['cluster_reply_vectors'] = {}
+    for i, ((h, pre, thr, suf), c) in enumerate(zip(ccl, cclines)):
+        o = ccout[i] if i < len(ccout) else '<no output>'
+        bad = monitor_conc_cluster(h, pre, thr, suf, o)
+        rv = o.split()[1] if len(o.split()) > 1 else '?'
+        chist['cluster_reply_vectors'][rv] = chist['cluster_reply_vectors'].get(rv, 0) + 1
+        chk.count(c, 'ok' in rv and 'old' in rv)
+        if bad:
+            nfail += 1
+            chk.violation({'kind': 'monitor-concurrent-cluster', 'case': c, 'impl': o, 'what': bad})
     rc4, verdicts = chk.run_model('epoch', [a for _, _, a in acc_cases], jobs=8)
     for k, (c, o, a) in enumerate(acc_cases):
         v = verdicts[k] if k < len(verdicts) else '<no output>'
@@ -459,6 +519,10 @@ def replay(data):
         bad = monitor_seq(h, ms, impl[0])[0] if impl else 'no output'
     else:
         h, pre, thr, suf = _parse_case_back(c)
+        if thr and thr[0].kind == 'C':
+            bad = monitor_conc_cluster(h, pre, thr, suf, impl[0]) if impl else 'no output'
+            print('monitor:', bad)
+            return 1 if bad else 0
         bad = monitor_conc(h, pre, thr, suf, impl[0])[0] if impl else 'no output'
         if impl and impl[0].startswith('conc '):
             _, v = chk.run_model('epoch', [conc_line(h, pre, thr, suf, 'concobs') + ' OBS ' + impl[0][len('conc '):]])
